@@ -175,7 +175,13 @@ func (p *Parser) tryMRQuantifier() (*types.Quantifier, bool, error) {
 		p.lexer.NextToken()
 		q = types.Quantifier{Min: 1, Max: -1}
 	case TokenLBrace:
+		snap := p.lexer.save()
 		p.lexer.NextToken() // consume '{'
+		if p.peekToken().Type == TokenMinus {
+			// "{-" opens an exclusion atom that follows this one, not a bounded quantifier
+			p.lexer.restore(snap)
+			return nil, false, nil
+		}
 		parsed, err := p.parseMRBounded()
 		if err != nil {
 			return nil, false, err
